@@ -291,10 +291,12 @@ def instantiate(unit, drops, extracted):
             strip = []
             cons = []
             noderive = False
+            deriveonly = None
             desugar = False
             addder = None
             inject = None
             intbytes = False
+            sliceeq = False
             dropbody = []
             for p in parts[2:]:
                 if p.startswith('nth='):
@@ -307,17 +309,25 @@ def instantiate(unit, drops, extracted):
                     cons = p[10:].split(',')
                 elif p == 'noderive':
                     noderive = True
+                elif p.startswith('derive-only='):
+                    deriveonly = p[len('derive-only='):]
                 elif p == 'desugar-refpat':
                     desugar = True
                 elif p.startswith('add-derive='):
                     addder = p[len('add-derive='):]
                 elif p == 'int-bytes':
                     intbytes = True
+                elif p == 'slice-eq':
+                    sliceeq = True
                 elif p.startswith('inject='):
                     inject = p[len('inject='):]
                 elif p.startswith('drop-body='):
                     dropbody = p[len('drop-body='):].split(',')
             item = extract.extract(resolve(path), rx, drops, nth=nth, raw=raw)
+            if deriveonly:
+                item, k = re.subn(r'(?m)^(\s*)#\[derive\([^)]*\)\]\s*\n', r'\1#[derive(%s)]\n' % deriveonly, item)
+                kk = '#[derive(..)] reduced to #[derive(%s)] (leaf types are opaque here)' % deriveonly
+                drops[kk] = drops.get(kk, 0) + k
             if noderive:
                 item, k = re.subn(r'(?m)^\s*#\[derive\([^)]*\)\]\s*\n', '', item)
                 if k:
@@ -327,6 +337,12 @@ def instantiate(unit, drops, extracted):
                 item, k = re.subn(r'\.to_(be|le)_bytes\(\)', r'.to_\1_bytes__()', item)
                 if k:
                     kk = 'renamed `.to_be_bytes()` / `.to_le_bytes()` calls to the trusted wrappers `.to_be_bytes__()` / `.to_le_bytes__()`'
+                    drops[kk] = drops.get(kk, 0) + k
+            if sliceeq:
+                item, k = re.subn(r'\b(\w+) == (\[(?:0x[0-9A-Fa-f]+|\d+)(?:\s*,\s*(?:0x[0-9A-Fa-f]+|\d+))*\])', r'slice_eq__(\1, &\2)', item)
+                if k:
+                    kk = ('rewrote `s == [..byte literals..]` into the trusted wrapper `slice_eq__(s, &[..])` (vstd\'s specification of '
+                          'slice == array equality is too weak to evaluate it and cannot be overridden)')
                     drops[kk] = drops.get(kk, 0) + k
             for fn in dropbody:
                 item = drop_fn_body(item, fn, drops)
